@@ -149,6 +149,13 @@ class RoundTrips(Suite):
     name = 'round_trips'
     model = ''
 
+    def corpus(self):
+        # long sequences (anything done per block of items shows only there), 0-d arrays, many arrays
+        return [dict(kind='generated', items=list(range(690, 940))),
+                dict(kind='generated', items=[{'k': i, 's': 'x' * (i % 7)} for i in range(205)]),
+                dict(kind='generated', items=[[i, str(i)] for i in range(101)]),
+                dict(kind='listnumpy', arrays=[[[i, i + 1], 'int64'] for i in range(25)])]
+
     def gen(self, rng, tier):
         out = []
         n = 60 if tier == 'quick' else 1500
@@ -291,6 +298,9 @@ class Framing(Suite):
     out_type = '(str * list str)'
     eq_dec = '(prod_eq_dec str_eq_dec str_list_eq_dec)'
     model = '(fun items : list str => (write_jsonl items, read_jsonl (write_jsonl items)))'
+
+    def corpus(self):
+        return [dict(items=list(range(250))), dict(items=[{'i': i} for i in range(101)])]
 
     def gen(self, rng, tier):
         return [dict(items=[rand_json(rng, 2) for _ in range(rng.choice([0, 1, 2, 3, 7]))]) for _ in range(150 if tier == 'quick' else 3000)]
